@@ -92,7 +92,7 @@ func (s *State) evalIndexAssigment(which ast.Node, index, value object.Object) o
 		}
 		return value
 	case object.MAP:
-		m := val.(object.Map)
+		m := writableMap(val.(object.Map))
 		m = m.Set(index, value)
 		oerr := s.env.Set(id.Literal(), m)
 		if oerr.Type() == object.ERROR {
@@ -103,6 +103,15 @@ func (s *State) evalIndexAssigment(which ast.Node, index, value object.Object) o
 		return s.Errorf("index assignment to %s of unexpected type %s",
 			id.Literal(), val.Type().String())
 	}
+}
+
+// Large maps are pointers shared by every copy of the value and Set/Delete mutate them in place:
+// index assignment and del work on a private copy. Small maps are already copied by value.
+func writableMap(m object.Map) object.Map {
+	if bm, ok := m.(*object.BigMap); ok {
+		return bm.Clone()
+	}
+	return m
 }
 
 func argCheck[T any](s *State, msg string, n int, vararg bool, args []T) *object.Error {
@@ -471,7 +480,7 @@ func (s *State) deleteMapEntry(idxE *ast.IndexExpression, index object.Object) o
 		return s.NewError("delete index on non map: " + id + " " + obj.Type().String())
 	}
 	log.LogVf("remove map: %s from %s", index.Inspect(), id)
-	m := obj.(object.Map)
+	m := writableMap(obj.(object.Map))
 	m, changed := m.Delete(index)
 	if !changed {
 		return object.FALSE
